@@ -1,0 +1,26 @@
+//go:build verif
+
+package sweeper
+
+// Contracts checked by /verif (lsvc). This file contains comments only and is
+// compiled only with the build tag "verif".
+
+//@ immutable Sweeper.schemaTracksChanges, Sweeper.conf
+
+// One sweeper pass. The only LMDB write is txn.Del, and it is guarded: the
+// entry deleted is the one just scanned, its header parses, it carries the
+// deleted flag and its timestamp is below the cutoff computed once at the
+// start of the pass. In non-native mode only Lightning Stream's own DBIs
+// (prefix _sync) are opened for sweeping.
+//@ func (s *Sweeper) sweep
+//@   modifies *
+//@   after_call header.TimestampFromTime#0 ghost loc_cutoff := uint64(ret0)
+//@   at_call lmdb.(*Env).Update#0 assert private_only: s.schemaTracksChanges || hasPrefix(dbiName, "_sync")
+
+//@ func (s *Sweeper) sweep$2
+//@   noswallow
+//@   loop 0 invariant not_failed: ghost_loc_failed == 0
+//@   at_call lmdb.(*Txn).OpenDBI#0 assert same_dbi: !hasPrefix(arg1, "_sync") ==> s.schemaTracksChanges
+//@   at_call lmdb.(*Txn).Del#0 assert scanned_entry: sameSlice(arg2, ls.Key()) && sameSlice(arg3, ls.Val())
+//@   at_call lmdb.(*Txn).Del#0 assert expired_marker: wfHeader(arg3) && hdrFlags(arg3) & 1 != 0 && hdrTS(arg3) < uint64(cutoffTS)
+//@   at_call lmdb.(*Txn).Del#0 assert cutoff_fixed_at_start: uint64(cutoffTS) == ghost_loc_cutoff
